@@ -751,22 +751,28 @@ def oracle_C12(ctx, i):
                     got, o = parse_slice(V["data"])
                     if got != b or o != 0: out.append(f"{p}unknown packet does not expose the input unchanged")
                 for k in KNOWN:
-                    if V.get(f"conv.{k}") != V.get(f"typed.{k}"):
-                        out.append(f"{p}unknown.try_as<{k}>={V.get(f'conv.{k}')} but {k}::parse={V.get(f'typed.{k}')}")
-                    elif V.get(f"conv_same.{k}") not in ("true", None):
-                        out.append(f"{p}unknown.try_as<{k}> differs from {k}::parse on the same bytes")
+                    for cv, what in (("conv", "try_as"), ("convo", "TryFrom<Packet>")):
+                        if f"{cv}.{k}" not in V: continue
+                        if V.get(f"{cv}.{k}") != V.get(f"typed.{k}"):
+                            out.append(f"{p}unknown packet {what}<{k}>={V.get(f'{cv}.{k}')} but {k}::parse={V.get(f'typed.{k}')}")
+                        elif V.get(f"{cv}_same.{k}") not in ("true", None):
+                            out.append(f"{p}unknown packet {what}<{k}> differs from {k}::parse on the same bytes")
+                    for cv in ("as", "aso"):
+                        if f"{cv}.{k}" in V and V[f"{cv}.{k}"] != V.get(f"typed.{k}"):
+                            out.append(f"{p}Unknown {cv}<{k}>={V[f'{cv}.{k}']} but {k}::parse={V.get(f'typed.{k}')}")
             else:
                 if V.get(f"typed.{want_var}") != "ok":
                     out.append(f"{p}generic parser accepted but {want_var}::parse says {V.get(f'typed.{want_var}')}")
                 for k in KNOWN:
-                    c = V.get(f"conv.{k}")
-                    if c is None: continue
-                    if k == want_var:
-                        if c != "ok" or V.get(f"conv_same.{k}") != "true":
-                            out.append(f"{p}try_as<{k}> on the matching variant: {c}, same={V.get(f'conv_same.{k}')}")
-                    else:
-                        want = f"err:PacketTypeMismatch({b[1]},{KIND_PT[k]})"
-                        if c != want: out.append(f"{p}try_as<{k}> on a {want_var} packet: {c}, expected {want}")
+                    for cv, what in (("conv", "try_as"), ("convo", "TryFrom<Packet>")):
+                        c = V.get(f"{cv}.{k}")
+                        if c is None: continue
+                        if k == want_var:
+                            if c != "ok" or V.get(f"{cv}_same.{k}") != "true":
+                                out.append(f"{p}{what}<{k}> on the matching variant: {c}, same={V.get(f'{cv}_same.{k}')}")
+                        else:
+                            want = f"err:PacketTypeMismatch({b[1]},{KIND_PT[k]})"
+                            if c != want: out.append(f"{p}{what}<{k}> on a {want_var} packet: {c}, expected {want}")
         elif r.startswith("err:"):
             t = V.get(f"typed.{want_var}")
             if want_var != "unknown" and t is not None and t != r:
@@ -795,11 +801,11 @@ def oracle_C13(ctx, i):
     if meta["kind"] == "unknown" or A.get("variant") == "unknown":
         return out       # an unknown packet has no content accessor: data() is the whole packet
     for k, v in A.items():
-        if k in CONTENT_SKIP or k.startswith(("typed.", "conv.", "conv_same.", "as.")): continue
+        if k in CONTENT_SKIP or k.startswith(("typed.", "conv.", "conv_same.", "convo.", "convo_same.", "as.", "aso.")): continue
         if Bv.get(k) != v:
             out.append(f"{k}: {v[:60]} unpadded, {str(Bv.get(k))[:60]} with {n} bytes of padding")
     for k in Bv:
-        if k not in A and not k.startswith(("typed.", "conv.", "conv_same.", "as.")) and k not in CONTENT_SKIP:
+        if k not in A and not k.startswith(("typed.", "conv.", "conv_same.", "convo.", "convo_same.", "as.", "aso.")) and k not in CONTENT_SKIP:
             out.append(f"{k} appears only with padding")
     return out
 
